@@ -224,3 +224,119 @@ func describeIfEvents(ev []string) string {
 	}
 	return strings.Join(out, ", ")
 }
+
+// truthValues: condition values covering the rows of C02's truthiness table, each a separately allocated object (never
+// one of the TRUE/FALSE/NIL singletons), so that a construct which compares with a singleton, or applies a predicate of
+// its own, is told apart from one that asks isTruthy.
+func (m *Model) truthValues() (truthy, falsy []*iStruct, ok bool) {
+	mk := func(name string, val any) *iStruct {
+		nt := m.namedType("object", name)
+		if nt == nil {
+			return nil
+		}
+		o := &iStruct{typ: nt, fields: map[int]any{}}
+		st := nt.Underlying().(*types.Struct)
+		for i := 0; i < st.NumFields(); i++ {
+			if st.Field(i).Name() == "Value" && val != nil {
+				o.fields[i] = val
+			}
+			if st.Field(i).Name() == "Elements" {
+				o.fields[i] = iSlice{&iArr{}, 0, 0}
+			}
+			if st.Field(i).Name() == "Pairs" {
+				o.fields[i] = &iMap{vals: map[string]any{}, kval: map[string]constant.Value{}}
+			}
+		}
+		return o
+	}
+	truthy = []*iStruct{mk("Bool", constant.MakeBool(true)), mk("Int", constant.MakeInt64(1)), mk("Int", constant.MakeInt64(-3)), mk("Str", constant.MakeString("x")),
+		mk("Float", constant.MakeFloat64(0.5)), mk("Array", nil), mk("Obj", nil)}
+	falsy = []*iStruct{mk("Bool", constant.MakeBool(false)), mk("Nil", nil), mk("Int", constant.MakeInt64(0)), mk("Float", constant.MakeFloat64(0)), mk("Str", constant.MakeString(""))}
+	for _, o := range append(append([]*iStruct{}, truthy...), falsy...) {
+		if o == nil {
+			return nil, nil, false
+		}
+	}
+	return truthy, falsy, true
+}
+
+// controlIfCases: @breakIf(c) / @continueIf(c) yield the break / continue marker exactly when c is truthy, nothing
+// (the nil object) when it is falsy, and the error when c fails — for every row of the truthiness table.
+func (m *Model) controlIfCases(stmtType, markerType string) (bad string, decided bool, why string) {
+	ev := m.Method("evaluator", "Evaluator", "Eval")
+	nt := m.namedType("ast", stmtType)
+	mt, nilT, errT := m.namedType("object", markerType), m.namedType("object", "Nil"), m.namedType("object", "Error")
+	truthy, falsy, ok := m.truthValues()
+	if ev == nil || nt == nil || mt == nil || nilT == nil || errT == nil || !ok {
+		return "", false, "Eval / ast." + stmtType + " / object types not found"
+	}
+	fCond := -1
+	st := nt.Underlying().(*types.Struct)
+	for i := 0; i < st.NumFields(); i++ {
+		if canonFieldName(nt, i, st.Field(i).Name()) == "Condition" {
+			fCond = i
+		}
+	}
+	if fCond < 0 {
+		return "", false, "ast." + stmtType + ".Condition not found"
+	}
+	type tc struct {
+		val  *iStruct
+		want string
+	}
+	var cases []tc
+	for _, v := range truthy {
+		cases = append(cases, tc{v, "marker"})
+	}
+	for _, v := range falsy {
+		cases = append(cases, tc{v, "nil"})
+	}
+	cases = append(cases, tc{&iStruct{typ: errT, fields: map[int]any{}}, "error"})
+	for _, c := range cases {
+		cnode := iObj{"condition"}
+		node := &iStruct{typ: nt, fields: map[int]any{fCond: cnode}}
+		ip := &Interp{m: m, useGlobals: true}
+		nEval := 0
+		ip.call = func(cl *ssa.Call, args []any) (any, bool) {
+			if cl.Call.StaticCallee() == ev && len(args) >= 2 && args[1] == any(cnode) {
+				nEval++
+				return c.val, true
+			}
+			return nil, false
+		}
+		res, known := ip.Run(ev, []any{iObj{"evaluator"}, node, iObj{"env"}})
+		if ip.stuck != "" || len(ip.lost) > 0 {
+			return "", false, "condition " + describeObj(c.val) + ": " + ip.stuck
+		}
+		o, isO := res.(*iStruct)
+		got := "something else"
+		switch {
+		case known && isO && o.typ == mt:
+			got = "marker"
+		case known && isO && o.typ == nilT:
+			got = "nil"
+		case known && isO && o == c.val && o.typ == errT:
+			got = "error"
+		}
+		if nEval != 1 {
+			return fmt.Sprintf("the condition is evaluated %d times", nEval), true, ""
+		}
+		if got != c.want {
+			words := map[string]string{"marker": "the " + strings.ToLower(markerType) + " marker", "nil": "nothing (the nil object)", "error": "the condition's error", "something else": "something else"}
+			return fmt.Sprintf("with the condition %s it yields %s, expected %s", describeObj(c.val), words[got], words[c.want]), true, ""
+		}
+	}
+	return "", true, ""
+}
+
+func describeObj(o *iStruct) string {
+	if o == nil || o.typ == nil {
+		return "?"
+	}
+	for _, v := range o.fields {
+		if c, ok := v.(constant.Value); ok {
+			return fmt.Sprintf("%s %s (a value of its own, not a singleton)", o.typ.Obj().Name(), c.ExactString())
+		}
+	}
+	return "a " + o.typ.Obj().Name() + " object"
+}
